@@ -17,6 +17,11 @@ const hasMonotonic = uint64(1) << 63
 
 func (i *interpreter) clockRead() value {
 	w := i.w
+	if w.clockStep > 0 {
+		// the harness asked for a concrete clock: instants step apart (vConcreteClock)
+		w.nclk++
+		return int64(w.nclk) * w.clockStep
+	}
 	t := w.newInput(fmt.Sprintf("clk_%d", w.nclk), 64)
 	w.nclk++
 	if w.clock == nil {
